@@ -5,6 +5,7 @@ import (
 	"go/token"
 	"go/types"
 	"math/big"
+	"sort"
 	"strings"
 )
 
@@ -418,6 +419,16 @@ func (c *Ctx) needBytesTheory() {
 		ax("seq_snoc", "(forall ((E (Array Ref Int)) (r Ref) (o Int) (n Int)) (! (=> (<= 0 n) (= (seq8 E r o (+ n 1)) (bcat (seq8 E r o n) (bunit (select E (elem r (+ o n))))))) :pattern ((seq8 E r o (+ n 1)))))")
 		ax("seq_frame", "(forall ((E (Array Ref Int)) (F (Array Ref Int)) (r Ref) (o Int) (n Int)) (! (=> (forall ((k Int)) (=> (and (<= 0 k) (< k n)) (= (select E (elem r (+ o k))) (select F (elem r (+ o k)))))) (= (seq8 E r o n) (seq8 F r o n))) :pattern ((seq8 E r o n) (seq8 F r o n))))")
 		ax("seq_sub", "(forall ((E (Array Ref Int)) (r Ref) (o Int) (n Int) (i Int) (j Int)) (! (=> (and (<= 0 i) (<= i j) (<= j n)) (= (bsub (seq8 E r o n) i j) (seq8 E r (+ o i) (- j i)))) :pattern ((bsub (seq8 E r o n) i j))))")
+		{
+			var ks []string
+			for k := range c.strLits {
+				ks = append(ks, k)
+			}
+			sort.Strings(ks)
+			for _, k := range ks {
+				c.strLitUnits(k, c.strLits[k])
+			}
+		}
 		ax("seq_at", "(forall ((E (Array Ref Int)) (r Ref) (o Int) (n Int) (k Int)) (! (=> (and (<= 0 k) (< k n)) (= (bat (seq8 E r o n) k) (select E (elem r (+ o k))))) :pattern ((bat (seq8 E r o n) k))))")
 	}
 }
